@@ -234,7 +234,8 @@ def rule_d(ctx):
     ctx.ob(R, call.qname, "reset() is called when the inner iteration counter is 0", guard_ok, "", call.node)
     cnt = [norm(s.value) for s in ast.walk(call.node) if isinstance(s, ast.Assign) and any(self_attr(t) == "_inner_iteration" for t in s.targets)]
     ctx.ob(R, call.qname, "inner counter is iteration or iteration % restart", sorted(cnt) == sorted([it_param, f"{it_param} % self._restart"]) or cnt == [f"{it_param} if self._restart is None else {it_param} % self._restart"]
-           or cnt == [f"{it_param} % self._restart if self._restart is not None else {it_param}"], str(cnt), call.node)
+           or cnt == [f"{it_param} % self._restart if self._restart is not None else {it_param}"], str(cnt), call.node,
+           evidence=any("self._inner_iteration" in c_ for c_ in cnt))  # the counter is advanced from its own previous value: it survives from one solve to the next
     # call sites
     n_sites = 0
     for f in m.all_funcs():
@@ -255,7 +256,8 @@ def rule_d(ctx):
                             ok = isinstance(it, ast.Call) and norm(it.func) == "range" and len(it.args) == 1
                             desc = f"{arg.id} of `for {arg.id} in {norm(it)}`"
                             break
-                ctx.ob(R, f.qname, "anderson is called with the zero-based index of the solve's iteration loop", ok, desc, c)
+                ctx.ob(R, f.qname, "anderson is called with the zero-based index of the solve's iteration loop", ok, desc, c,
+                       evidence=arg is not None and any(isinstance(x, ast.Attribute) and isinstance(x.value, ast.Name) and x.value.id == "self" for x in ast.walk(arg)))  # an index that reads object state
     ctx.floor(R + ".sites", 2)
     ctx.floor(R, 1)
 
